@@ -305,6 +305,13 @@ fn collect_field_aliases(s: &J, out: &mut Vec<(String, String)>) {
 
 pub type Runner = fn(&J) -> J;
 
+fn unexecuted(scn: &J, supported: bool, why: &str) -> J {
+    json!({"ev":"derive","name":scn["name"],"root":scn["root"],"defs":scn["defs"],"supported":supported,
+           "schema":{"ok":false,"term":{"k":"none"},"err":why},
+           "again":{"ok":false,"term":{"k":"none"},"err":why},
+           "json":{"ok":false,"term":{"k":"none"},"err":"","same":false,"text":""},"vals":[]})
+}
+
 /// main of the generated corpus crate: `derive-run --scn FILE --out FILE`
 pub fn main_with(registry: &[(&str, Runner)]) -> i32 {
     quiet_panics();
@@ -316,9 +323,31 @@ pub fn main_with(registry: &[(&str, Runner)]) -> i32 {
             }
             0
         }
+        // one scenario from stdin, its event to stdout (child of `derive-run`)
+        "derive-one" => {
+            let mut line = String::new();
+            std::io::stdin().read_line(&mut line).ok();
+            let scn: J = match serde_json::from_str(&line) {
+                Ok(j) => j,
+                Err(e) => {
+                    eprintln!("bad scenario: {e}");
+                    return 2;
+                }
+            };
+            let name = scn["name"].as_str().unwrap_or("");
+            let ev = match registry.iter().find(|(n, _)| *n == name) {
+                Some((_, f)) => f(&scn),
+                // the definition did not compile (the glue left it out): recorded, judged as drift
+                None => unexecuted(&scn, false, "not compiled"),
+            };
+            println!("{ev}");
+            0
+        }
+        // every scenario in its own child process: a stack overflow or abort in derived code is data, not a tool failure
         "derive-run" => {
             let lines = read_lines(a.req("scn"));
             let mut out = open_out(a.req("out"));
+            let exe = std::env::current_exe().expect("current_exe");
             for (idx, line) in lines.iter().enumerate() {
                 let scn: J = match serde_json::from_str(line) {
                     Ok(j) => j,
@@ -327,14 +356,15 @@ pub fn main_with(registry: &[(&str, Runner)]) -> i32 {
                         return 2;
                     }
                 };
-                let name = scn["name"].as_str().unwrap_or("");
-                let mut ev = match registry.iter().find(|(n, _)| *n == name) {
-                    Some((_, f)) => f(&scn),
-                    // the definition did not compile (the glue left it out): recorded, judged as drift
-                    None => json!({"ev":"derive","name":scn["name"],"root":scn["root"],"defs":scn["defs"],"supported":false,
-                                   "schema":{"ok":false,"term":{"k":"none"},"err":"not compiled"},
-                                   "again":{"ok":false,"term":{"k":"none"},"err":"not compiled"},
-                                   "json":{"ok":false,"term":{"k":"none"},"err":"","same":false,"text":""},"vals":[]}),
+                use std::process::{Command, Stdio};
+                let mut child = Command::new(&exe).arg("derive-one").stdin(Stdio::piped()).stdout(Stdio::piped()).stderr(Stdio::null())
+                    .spawn().expect("spawn child");
+                child.stdin.take().unwrap().write_all(format!("{line}\n").as_bytes()).ok();
+                let o = child.wait_with_output().expect("child output");
+                let text = String::from_utf8_lossy(&o.stdout);
+                let mut ev: J = match text.lines().last().and_then(|l| serde_json::from_str(l).ok()) {
+                    Some(j) if o.status.success() => j,
+                    _ => unexecuted(&scn, true, &format!("process died while deriving / executing: {}", o.status)),
                 };
                 ev["id"] = small(idx);
                 ev["exp"] = scn["exp"].clone();
